@@ -1,4 +1,5 @@
 import DsdVerif.Spec.Symbols
+import DsdVerif.Props.C16Reader
 
 namespace Dsd.Symbols
 
